@@ -270,6 +270,11 @@ func (a *AddExp) Eval(env Env) (Exp, bool) {
 			// 先行する項があった場合にのみ演算子を追加します
 			if len(newTerms) > 0 { // 最初の項でない場合に演算子を追加します
 				newOps = append(newOps, op)
+			} else if op == "-" {
+				// 最初の非定数項が引かれる場合 (255 - A など): 演算子を捨てると符号が失われて A + 255 になる。
+				// 先頭に 0 を置いて 0 - A (+ 定数) の形で保持する。
+				newTerms = append(newTerms, NewNumberExp(ImmExp{BaseExp: a.BaseExp}, 0))
+				newOps = append(newOps, op)
 			}
 			newTerms = append(newTerms, evalTail)
 		}
